@@ -106,8 +106,8 @@ Proof.
   assert (Hun : grows st (el_unnamed c node next st)).
   { unfold el_unnamed. destruct (el_snippet c node next st) as [st'|] eqn:E.
     - eapply grows_el_snippet; eassumption.
-    - destruct (an_value node) as [[|v0 value]|]; try apply grows_refl.
-      eapply grows_trans; [apply grows_push_tokens|apply Hn]. }
+    - eapply grows_trans; [|apply Hn].
+      destruct (an_value node) as [[|v0 value]|]; try apply grows_refl. apply grows_push_tokens. }
   destruct (an_name node) as [[|x nm]|]; try exact Hun.
   unfold el_named, el_open, el_close.
   assert (Ho : grows st (el_attrs c node (push_str c (c_lt :: tag_name c (x :: nm)) (comment_node c (oc_comment_before c) node st)))).
